@@ -48,7 +48,7 @@ def corpus() -> list[dict]:
 
 def run(tier: str, seed: int, rep: Report, model: Model) -> dict:
     rnd = rng_for("C10", seed)
-    n = depth(tier, 1000, 10000)
+    n = depth(tier, 1000, 40000)
     rep.rule = ("contexts rich in optional hints (parameters, tuple elements, return) with random None / conforming / violating values; "
                 "plus unions with non-None alternatives; distinct = distinct case; non-trivial = at least one None at an annotated position")
     cases = corpus()
